@@ -16,7 +16,7 @@ K_ASSUME = [
 HASH_MODEL = "qp_poseidon_core::hash_to_bytes stubbed by a deterministic recording model (the harness compares the preimage handed to the sponge)"
 
 
-def run_kani_check(pid, tier, jobs, functions, bounds, assumptions, timeout_q=900, timeout_t=3600, parallel=8, mem_gb=12, mir=None):
+def run_kani_check(pid, tier, jobs, functions, bounds, assumptions, timeout_q=900, timeout_t=3600, parallel=8, mem_gb=12, mir=None, best_effort=()):
     t0 = time.time()
     os.environ["RUSTFLAGS"] = f"--cfg {GUARD}"
     results = kanilib.run_many(jobs, timeout_q if tier == "quick" else timeout_t, mem_gb=mem_gb, parallel=parallel)
@@ -75,8 +75,15 @@ def run_kani_check(pid, tier, jobs, functions, bounds, assumptions, timeout_q=90
             print(f"harness crate {r.crate} does not build against the current /repo tree:\n{r.log[-1500:]}")
             if rc == 0:
                 rc = 3
+        elif r.name in best_effort:
+            # deeper harnesses attempted in the thorough tier only: no verdict = nothing claimed for them (recorded in the evidence)
+            print(f"  [kani] {r.name}: {r.verdict} - attempted beyond the claimed bound, no verdict, not part of the claim", flush=True)
         else:
             inconcl.append(f"{r.name}: {r.verdict} (no verdict within the cap)")
+    attempted = [r.name for r in results if r.name in best_effort and r.verdict not in ("SUCCESSFUL", "FAILED")]
+    results = [r for r in results if r.name not in attempted]
+    if attempted:
+        bounds = dict(bounds, attempted_without_verdict=attempted)
     for r in results:
         if r.verdict == "SUCCESSFUL" and r.covers[1] > 0 and r.covers[0] == 0:
             inconcl.append(f"{r.name}: vacuity guard failed (no cover property reachable)")
@@ -99,13 +106,13 @@ INPUTS_PARSERS_T = ["private_batch_parser_n2_total_and_exact", "public_batch_par
 @register("C24")
 def c24(pid, tier):
     hs = INPUTS_PARSERS + (INPUTS_PARSERS_T if tier == "thorough" else [])
-    return run_kani_check(pid, tier, [("inputs", h) for h in hs],
+    return run_kani_check(pid, tier, [("inputs", h) for h in hs], best_effort=tuple(INPUTS_PARSERS_T), functions=
                           ["qp_wormhole_inputs::PublicCircuitInputs::try_from_u64_slice", "PrivateBatchPublicInputs::try_from_u64_slice",
-                           "PublicBatchPublicInputs::try_from_u64_slice", "hash_u64s_to_bytes_digest", "BytesDigest::try_from", "validate_proof_count", "public_batch_pi::try_pi_len"],
-                          {"leaf": "every [u64;21] and every other length <= 24", "public_batch": "(M,N)=(1,1) all 26-felt vectors; all counts (full usize) x lengths <= 41 that do not match the layout are rejected; thorough adds M*N=2",
-                           "private_batch": "N=1 all 29-felt vectors; every length 0..72 off the layout (29, 50, 71) rejected without panic; thorough adds N=2 all vectors",
+                           "PublicBatchPublicInputs::try_from_u64_slice", "hash_u64s_to_bytes_digest", "BytesDigest::try_from", "validate_proof_count", "public_batch_pi::try_pi_len"], bounds=
+                          {"leaf": "every [u64;21] and every other length <= 24", "public_batch": "(M,N)=(1,1) all 26-felt vectors; all counts (full usize) x lengths <= 41 that do not match the layout are rejected; thorough attempts M*N=2 (claimed only if it finishes)",
+                           "private_batch": "N=1 all 29-felt vectors; every length 0..72 off the layout (29, 50, 71) rejected without panic; thorough attempts N=2 all vectors (claimed only if it finishes)",
                            "outside": "larger layouts; the felt-based parsers of wormhole/circuit (plonky2 field types) and the u64-vs-felt cross-parser agreement are not encoded (see DESIGN.md)"},
-                          [], timeout_q=1500, timeout_t=7200, parallel=4, mem_gb=14)
+                          assumptions=[], timeout_q=1500, timeout_t=7200, parallel=4, mem_gb=14)
 
 
 @register("C25")
